@@ -17,9 +17,13 @@ NearRec(t) == [ts |-> t, strict |-> Denote(t, FALSE), lenient |-> Denote(t, TRUE
 ReplaceAt(r, i, x) == SubSeq(r, 1, i - 1) \o x \o SubSeq(r, i + 1, Len(r))
 NearRenderings == {RenderL(Top, <<"min", "none">>), RenderL(Top, <<"all", "none">>), RenderL(Top, <<"outer", "none">>),
                    Wrap(RenderL(Top, <<"outer", "none">>), "none")}          \* the last: redundant double parentheses
+\* a QUOTED reserved word is a string, never the operator or parenthesis: in place of one it is malformed
+Quoted(tok) == CASE tok = "!" -> "'!'" [] tok = "&&" -> "\"&&\"" [] tok = "||" -> "'||'" [] tok = "(" -> "'('"
+                 [] tok = ")" -> "\")\"" [] OTHER -> tok
 ExportNear == (Mode = "trees" /\ done) =>
    \A r \in NearRenderings :
       /\ \A i \in 1..Len(r) : PrintT(<<"NEAR", ToJson(NearRec(DeleteAt(r, i)))>>)
+      /\ \A i \in 1..Len(r) : (Quoted(r[i]) # r[i]) => PrintT(<<"NEAR", ToJson(NearRec(ReplaceAt(r, i, <<Quoted(r[i])>>)))>>)
       /\ \A i \in 1..Len(r) : \A x \in Insertions :
             (x # <<r[i]>> /\ (i > 1 \/ x[1] # "NL")) => PrintT(<<"NEAR", ToJson(NearRec(ReplaceAt(r, i, x)))>>)
       /\ \A i \in 1..(Len(r) + 1) : \A x \in Insertions :
